@@ -21,7 +21,8 @@ func init() {
 
 	collection.AddChecker(&info, func(ctx *linter.CheckerContext) (linter.FileWalker, error) {
 		regexpPatterns := []*regexp.Regexp{
-			regexp.MustCompile(`^//[\w-]+:.*$`), // e.g.: key: value
+			regexp.MustCompile(`^//[\w-]+:.*$`),   // e.g.: key: value
+			regexp.MustCompile(`^//line .*:\d+$`), // e.g.: line file.y:12 or line :12:3 (a compiler directive with a relative or no file name)
 		}
 		equalPatterns := []string{
 			"//nolint",
